@@ -667,6 +667,10 @@ impl Shared {
                 fail += 1;
             }
         }
+        if fail == 1 && self.cfg.broker.fail_codes.len() > 1 && self.broker.is_puback_or_pubrec(e) {
+            // which failure code the refusal carries
+            fail = 100 + self.ch.choose(K_VARIANT, self.cfg.broker.fail_codes.len(), 0) as u8;
+        }
         if self.explore() && self.cfg.broker.pubrel_forms && self.broker.is_pubrel(e) {
             // 10 = short form, 11 = reason code 0x92, 12 = reason code 0 with an explicit (empty) property block
             fail = 10 + self.ch.choose(K_VARIANT, 3, 0) as u8;
@@ -781,7 +785,7 @@ impl Shared {
                 let forced = opts.is_empty();
                 if forced {
                     opts.push((E::Cancel, false));
-                } else if self.explore() && self.cfg.cancel && self.cancel_ok {
+                } else if self.explore() && self.cfg.cancel && self.cancel_ok && !self.cfg.no_cancel_while_idle {
                     opts.push((E::Cancel, true));
                 }
                 if self.explore() {
